@@ -32,6 +32,7 @@ typedef struct snapshot {
     long up_live;          /* units of the user-defined pool that exist */
     ABT_thread_state rstate; /* the terminated ULT that the revive operations use */
     ABT_pool bpool, rpool; /* associated pools of the blocked ULT and of the terminated ULT */
+    char upinfo[400];      /* ABT_info_print_pool of the user-defined pool (id, automatic, num_scheds, size, num_blocked, ...) */
 } snapshot;
 
 /* ---- a user-defined pool: associating a work unit with it makes the library allocate an
@@ -163,6 +164,18 @@ static void take(snapshot *s)
     memset(s, 0, sizeof *s);
     ABT_OK(ABT_xstream_get_num(&s->num_xs));
     s->up_live = UP.creates - UP.frees;
+    if (UP.inited) {
+        /* everything the library is willing to print about the pool (its stream is idle now) */
+        char *buf = NULL;
+        size_t len = 0;
+        FILE *f = open_memstream(&buf, &len);
+        if (f) {
+            ABT_OK(ABT_info_print_pool(f, UP.pool));
+            fclose(f);
+            snprintf(s->upinfo, sizeof s->upinfo, "%s", buf ? buf : "");
+            free(buf);
+        }
+    }
     if (revive_t != ABT_THREAD_NULL) {
         ABT_OK(ABT_thread_get_state(revive_t, &s->rstate));
         ABT_OK(ABT_thread_get_last_pool(revive_t, &s->rpool));
@@ -184,10 +197,10 @@ static void take(snapshot *s)
 static void same(const snapshot *a, const snapshot *b, const char *op, int k)
 {
     SIM_CHECK(a->num_xs == b->num_xs && a->rank == b->rank && a->xstate == b->xstate && a->psize == b->psize && a->ptotal == b->ptotal && a->psize2 == b->psize2 &&
-                  a->bstate == b->bstate && a->keyval == b->keyval && a->up_live == b->up_live && a->rstate == b->rstate && a->bpool == b->bpool && a->rpool == b->rpool,
-              "fault:state-changed", "%s with allocation #%d failing changed pre-existing objects: num_xstreams %d->%d rank %d->%d pool size %zu->%zu total %zu->%zu blocked state %d->%d key %p->%p user-pool units %ld->%ld terminated ULT state %d->%d pool changed %d/%d",
+                  a->bstate == b->bstate && a->keyval == b->keyval && a->up_live == b->up_live && a->rstate == b->rstate && a->bpool == b->bpool && a->rpool == b->rpool && !strcmp(a->upinfo, b->upinfo),
+              "fault:state-changed", "%s with allocation #%d failing changed pre-existing objects: num_xstreams %d->%d rank %d->%d pool size %zu->%zu total %zu->%zu blocked state %d->%d key %p->%p user-pool units %ld->%ld terminated ULT state %d->%d pool changed %d/%d user pool info changed %d",
               op, k, a->num_xs, b->num_xs, a->rank, b->rank, a->psize, b->psize, a->ptotal, b->ptotal, (int)a->bstate, (int)b->bstate, a->keyval, b->keyval, a->up_live, b->up_live,
-              (int)a->rstate, (int)b->rstate, a->bpool != b->bpool, a->rpool != b->rpool);
+              (int)a->rstate, (int)b->rstate, a->bpool != b->bpool, a->rpool != b->rpool, strcmp(a->upinfo, b->upinfo) != 0);
 }
 
 /* ------------------------------------------------------------------ operations */
@@ -416,6 +429,12 @@ static void u_set_main_sched_joined(void **h)
     /* back to a scheduler over a built-in pool (the other one is released by the runtime) */
     ABT_OK(ABT_xstream_set_main_sched_basic(X.jxs, ABT_SCHED_BASIC, 0, NULL));
 }
+static int d_set_main_sched_basic_joined(void **h)
+{
+    int rc = ABT_xstream_set_main_sched_basic(X.jxs, ABT_SCHED_BASIC, 1, &UP.pool);
+    *h = rc == ABT_SUCCESS ? (void *)X.jxs : POISON;
+    return rc;
+}
 static int d_pool_create_user(void **h)
 {
     ABT_pool_user_def def;
@@ -571,6 +590,7 @@ static const op18 OPS[] = {
     { "ABT_thread_revive(user_pool)", d_thread_revive_upool, u_thread_revive_upool, POISON, 0, 2 },
     { "ABT_thread_set_associated_pool(user_pool)", d_set_assoc_upool, u_set_assoc_upool, POISON, 2, 2 },
     { "ABT_xstream_set_main_sched(joined,user_pool)", d_set_main_sched_joined, u_set_main_sched_joined, POISON, 2, 2 },
+    { "ABT_xstream_set_main_sched_basic(joined,user_pool)", d_set_main_sched_basic_joined, u_set_main_sched_joined, POISON, 2, 2 },
     { "ABT_pool_create(user_def)", d_pool_create_user, u_pool, ABT_POOL_NULL, 0, 0 },
     { "ABT_sched_create(user_def)", d_sched_create_user, u_sched, ABT_SCHED_NULL, 0, 0 },
     { "ABT_xstream_create_with_rank", d_xstream_create_with_rank, u_xstream, ABT_XSTREAM_NULL, 0, 0 },
